@@ -193,6 +193,31 @@ func check(c geneCase) *vlib.Failure {
 	w := buildWorld(c)
 	var model []span
 	for oi, o := range c.Ops {
+		if o.Kind == "flip-transcript" || o.Kind == "flip-gene" {
+			// re-orient the transcript or the gene between updates: everything derived from the
+			// orientation must follow
+			if o.Kind == "flip-transcript" {
+				c.TOrient = -c.TOrient
+				switch t := w.t.(type) {
+				case *gene.CodingTranscript:
+					t.Orient = feat.Orientation(c.TOrient)
+				case *gene.NonCodingTranscript:
+					t.Orient = feat.Orientation(c.TOrient)
+				}
+			} else {
+				if c.GOrient == 0 {
+					c.GOrient = 1
+				} else {
+					c.GOrient = -c.GOrient
+				}
+				w.g.Orient = feat.Orientation(c.GOrient)
+			}
+			if f := checkTiling(w, c, model); f != nil {
+				f.Msg = fmt.Sprintf("after op %d (%s): %s", oi, o.Kind, f.Msg)
+				return f
+			}
+			continue
+		}
 		before := spansOf(w, w.t.Exons())
 		if !sameSpans(before, model) {
 			return vlib.Failf("model-divergence", "before op %d: transcript holds %v, model %v", oi, before, model)
@@ -535,8 +560,8 @@ func gen(t *rapid.T) geneCase {
 				}
 			case 1: // foreign location
 				o.Exons[rapid.IntRange(0, len(o.Exons)-1).Draw(t, "foreign-k")].Foreign = true
-			case 2: // no zero start
-				d := rapid.IntRange(1, 9).Draw(t, "shift")
+			case 2: // no zero start (shifted right, or left into negative offsets)
+				d := rapid.SampledFrom([]int{1, 2, 5, 9, -1, -2, -7}).Draw(t, "shift")
 				for k := range o.Exons {
 					o.Exons[k].Off += d
 				}
@@ -585,6 +610,9 @@ func gen(t *rapid.T) geneCase {
 			}
 		}
 		c.Ops = append(c.Ops, o)
+		if len(model) > 0 && rapid.IntRange(0, 4).Draw(t, "flip") == 0 {
+			c.Ops = append(c.Ops, op{Kind: rapid.SampledFrom([]string{"flip-transcript", "flip-gene"}).Draw(t, "flip-kind")})
+		}
 	}
 	return c
 }
@@ -596,6 +624,10 @@ func classes(c geneCase) []string {
 	nt := false
 	for _, o := range c.Ops {
 		switch o.Kind {
+		case "flip-transcript", "flip-gene":
+			if c.Coding {
+				l = append(l, "re-oriented-between-queries")
+			}
 		case "set":
 			if want, ok := setAccepts(o.Exons); ok {
 				model = want
@@ -656,7 +688,7 @@ func classes(c geneCase) []string {
 
 func TestGeneModels(t *testing.T) {
 	vlib.Run(t, vlib.Prop[geneCase]{Name: "gene-model-histories", Checks: 5000, Thorough: 480000, Gen: gen, Check: check, Classes: classes,
-		MinFrac: map[string]float64{"exons>=3": 0.3, "add-rejected/spare-capacity/sorts-before-existing": 0.03, "set-rejected": 0.15, "coding": 0.3, "reverse-base-orientation": 0.2}})
+		MinFrac: map[string]float64{"exons>=3": 0.3, "add-rejected/spare-capacity/sorts-before-existing": 0.03, "set-rejected": 0.15, "coding": 0.3, "reverse-base-orientation": 0.2, "re-oriented-between-queries": 0.08}})
 }
 
 // deep chains: positions compose additively up to the documented limit of 1000 links
